@@ -632,6 +632,24 @@ func (e *Engine) VerifyFunc(fn *ssa.Function) (vc *VC) {
 	}
 	vc.obls = append(vc.obls, &Obl{Name: f.namePfx + "/cover/entry", Kind: "cover", Guard: st.alive, Goal: "true", Cover: true, Func: f.namePfx})
 	f.run(st, args)
+	if fc != nil {
+		for _, cs := range fc.Callsites {
+			if !f.csUsed[cs] {
+				cfail("callsite %s#%d of %s matches no call in the function", cs.Callee, cs.Ord, fc.Ref)
+			}
+		}
+		for ord := range fc.Loops {
+			found := false
+			for _, li := range f.loops {
+				if li.ord == ord {
+					found = true
+				}
+			}
+			if !found {
+				cfail("loop %d of %s does not exist", ord, fc.Ref)
+			}
+		}
+	}
 	// postconditions
 	for i, r := range f.rets {
 		rst := r.st
